@@ -443,9 +443,9 @@ Definition rev_lookup (ri : rindex) (ip port : N) : option mapping :=
   find (fun m => covers (m_blk m) ip port) (r_byip ri).
 
 (* ---------------------------------------------------------------- component call order (component.go) *)
-(* A subscriber is (inside VRF, inside address), encoded as vrf * 65536 + low 16 bits of the address.  Before the
+(* A subscriber is (inside VRF, inside address), encoded as vrf * 2^32 + the 32-bit address.  Before the
    VRF fix (53e73c2) the component passed VRF 0 to every pool call it derives from a session. *)
-Definition pk (v : variant) (k : N) : N := if v_vrfkey v then k else k mod 65536.
+Definition pk (v : variant) (k : N) : N := if v_vrfkey v then k else k mod two32.
 
 (* cp_pend: activations whose dataplane add is still in flight: (session, pool key, block) *)
 (* cp_deg: sessions whose mapping the degraded restore branch preserved (Component.preserved) *)
